@@ -68,6 +68,7 @@ class CaseResult:
 def _check(solver, cond, timeout_ms):
     """Is ``pc => cond`` valid?  returns ('unsat'|'sat'|'unknown', model, seconds)."""
     t = time.time()
+    solver.set("timeout", timeout_ms)
     if cond is True:
         return "unsat", None, 0.0
     if cond is False:
@@ -87,10 +88,11 @@ def _check(solver, cond, timeout_ms):
     return "unknown", None, dt
 
 
-def make_engine(case, repo, summaries_lib, seed=0):
+def make_engine(case, repo, summaries_lib, seed=0, concrete=False):
     summaries = {}
     loops = {}
-    for s in list(summaries_lib.get("default", [])) + list(case.summaries):
+    # concrete runs (CPython cross-check) execute the real bodies everywhere: only the library stubs stay
+    for s in list(summaries_lib.get("default", [])) + ([] if concrete else list(case.summaries)):
         summaries[s] = summaries_lib["summaries"][s]
     for key in case.loops:
         loops[key] = summaries_lib["loops"][key]
@@ -99,6 +101,7 @@ def make_engine(case, repo, summaries_lib, seed=0):
         eng.attr_hooks[k] = h
     for k, h in summaries_lib.get("externals", {}).items():
         eng.externals[k] = h
+    eng.recursive_only = set(summaries_lib.get("recursive_only", ()))
     return eng
 
 
@@ -135,6 +138,9 @@ def verify_case(case, repo=None, summaries_lib=None, seed=0):
                 S = EngineSource(e)
                 return run_case_call(case, e, S)
             finally:
+                e.ctx["ghost"] = dict(e.ghost)
+                if e.ctx.get("inp") is not None:
+                    e.ctx["inp"].__dict__["ghost"] = e.ctx["ghost"]
                 ctxs.append(e.ctx)
 
         paths = explore(eng, run)
@@ -236,7 +242,8 @@ def _short(v):
 
 def run_concrete(case, repo, summaries_lib, prims):
     """Run the case in the engine on concrete primitives (encoding cross-check). Returns an outcome description."""
-    eng = make_engine(case, repo, summaries_lib)
+    eng = make_engine(case, repo, summaries_lib, concrete=True)
+    eng.concrete_mode = True
     eng.reset_path([])
     S = EngineSource(eng, prims)
     try:
